@@ -391,6 +391,7 @@ def build_history(ctx, rng, fmt="2a", nrevs=8, nbranches=2, names=None, weights=
     """Random multi-branch history with merges.  Returns Hist."""
     from breezy import errors
     from breezy.branch import Branch
+    from breezy.commit import PointlessCommit
     from breezy.workingtree import WorkingTree
 
     names = names or Names("quick")
@@ -438,7 +439,7 @@ def build_history(ctx, rng, fmt="2a", nrevs=8, nbranches=2, names=None, weights=
             h.log.append({"merge": other, "into": name})
             try:
                 commit(h, name, wt, rng)
-            except errors.PointlessCommit:
+            except PointlessCommit:
                 wt.revert()
             continue
         random_delta(rng, wt, names, rng.randint(1, 5), weights, h.log)
@@ -446,7 +447,7 @@ def build_history(ctx, rng, fmt="2a", nrevs=8, nbranches=2, names=None, weights=
             wt.add_pending_merge(b"ghost-%d" % len(h.order))
         try:
             commit(h, name, wt, rng)
-        except errors.PointlessCommit:
+        except PointlessCommit:
             pass
         if tags and rng.random() < 0.3:
             t = rng.choice(["v1", "rel 2", "t/x", "über"])
